@@ -4,6 +4,8 @@
 //
 //	bind init <bind_init.ndjson>    the library requests a resource
 //	bind recv <bind_recv.ndjson>    the library answers a request
+//	bind shared <bind_shared.ndjson>  several receiving sessions (successive and overlapping,
+//	                                several accounts) are negotiated with ONE feature list value
 //
 // Every scenario carries the expectation computed by TLC from the specification.
 package main
@@ -17,6 +19,7 @@ import (
 	"fmt"
 	"os"
 	"strings"
+	"sync"
 	"time"
 
 	"mellium.im/xmpp"
@@ -267,42 +270,147 @@ type RecvVec struct {
 
 func noRes(r []int) bool { return len(r) == 1 && r[0] == 0 }
 
-func runRecvOnce(v RecvVec) (diffs []string, obs vt.Ev, replyJID string) {
-	diff := func(f string, a ...interface{}) { diffs = append(diffs, fmt.Sprintf(f, a...)) }
-	id := str(v.In.ID)
-	remote := jid.MustParse("me@example.net")
-	var cbJID jid.JID
-	cbCalled := 0
-	var cbRemote jid.JID
-	var cbRes string
-	cb := func(j jid.JID, res string) (jid.JID, error) {
-		cbCalled++
-		cbRemote, cbRes = j, res
-		switch v.In.CB {
+// cbCall is one invocation of the application's callback.
+type cbCall struct {
+	remote jid.JID
+	res    string
+	ret    jid.JID
+}
+
+// makeCB returns the application's callback of the given kind. remote() is the address of
+// the peer whose bind is being answered (known to the driver), rec receives every call.
+func makeCB(kind string, remote func() jid.JID, rec func(cbCall)) func(jid.JID, string) (jid.JID, error) {
+	return func(j jid.JID, res string) (jid.JID, error) {
+		var ret jid.JID
+		var err error
+		switch kind {
 		case "requested":
 			r := res
 			if r == "" {
 				r = "dflt"
 			}
-			cbJID, _ = remote.WithResource(r)
-			return cbJID, nil
+			ret, _ = remote().WithResource(r)
 		case "chosen":
-			cbJID, _ = remote.WithResource("chosen'&<\">")
-			return cbJID, nil
+			ret, _ = remote().WithResource("chosen'&<\">")
 		case "otheraccount":
-			cbJID = jid.MustParse("you@other.example/x")
-			return cbJID, nil
+			ret = jid.MustParse("you@other.example/x")
 		case "conflict":
-			return jid.JID{}, stanza.Error{Type: stanza.Cancel, Condition: stanza.Conflict}
+			err = stanza.Error{Type: stanza.Cancel, Condition: stanza.Conflict}
 		case "not-allowed":
-			return jid.JID{}, stanza.Error{Type: stanza.Cancel, Condition: stanza.NotAllowed}
+			err = stanza.Error{Type: stanza.Cancel, Condition: stanza.NotAllowed}
+		default:
+			err = errors.New("vt: the application's store is down")
 		}
-		return jid.JID{}, errors.New("vt: the application's store is down")
+		rec(cbCall{remote: j, res: res, ret: ret})
+		return ret, err
 	}
-	feat := xmpp.BindCustom(cb)
-	if v.In.CB == "random" {
-		feat = xmpp.BindResource()
+}
+
+// feature builds a feature value of the given kind ("random" = BindResource(), "nil" =
+// BindCustom(nil), anything else = BindCustom(callback of that kind)).
+func feature(kind string, remote func() jid.JID, rec func(cbCall)) xmpp.StreamFeature {
+	switch kind {
+	case "random":
+		return xmpp.BindResource()
+	case "nil":
+		return xmpp.BindCustom(nil)
 	}
+	return xmpp.BindCustom(makeCB(kind, remote, rec))
+}
+
+func bindRequest(id string, res []int) string {
+	inner := ""
+	if !noRes(res) {
+		inner = "<resource>" + esc(str(res)) + "</resource>"
+	}
+	return "<iq type='set' id='" + esc(id) + "'><bind xmlns='" + nsBind + "'>" + inner + "</bind></iq>"
+}
+
+// recvRun is what one receiving session did.
+type recvRun struct {
+	remote   jid.JID
+	reply    string
+	s        *xmpp.Session
+	err      error
+	panicked interface{}
+	calls    []cbCall
+}
+
+// judgeRecv compares one receiving session with the expectation of Bind.tla (ExpRecv).
+func judgeRecv(cb string, exp RecvExp, o *recvRun) (diffs []string, obs vt.Ev, replyJID string) {
+	diff := func(f string, a ...interface{}) { diffs = append(diffs, fmt.Sprintf(f, a...)) }
+	remote := o.remote
+	obs = vt.Ev{"reply": o.reply, "err": errText(o.err)}
+	if o.panicked != nil {
+		diff("the session panicked: %v", o.panicked)
+		return diffs, obs, ""
+	}
+	// the callback
+	var cbJID jid.JID
+	if cb != "random" {
+		switch {
+		case len(o.calls) != 1:
+			diff("the callback was called %d times", len(o.calls))
+		case o.calls[0].res != str(exp.CBArg) || !o.calls[0].remote.Equal(remote):
+			diff("the callback was called with (%q, %q), want (%q, %q)", o.calls[0].remote, o.calls[0].res, remote, str(exp.CBArg))
+		}
+		if len(o.calls) > 0 {
+			cbJID = o.calls[len(o.calls)-1].ret
+		}
+	}
+	// the answer
+	if exp.Reply != "none" {
+		iq, perr := parseIQ(o.reply)
+		switch {
+		case perr != nil:
+			diff("the answer is not a well-formed element: %v (%q)", perr, o.reply)
+		case iq.ID != str(exp.ID):
+			diff("the answer has id %q, the request had %q", iq.ID, str(exp.ID))
+		default:
+			switch exp.Reply {
+			case "address", "random":
+				if iq.Type != "result" || iq.Bind == nil || iq.Bind.JID == nil {
+					diff("the answer assigns no address: %q", o.reply)
+					break
+				}
+				replyJID = *iq.Bind.JID
+				if exp.Reply == "address" && replyJID != cbJID.String() {
+					diff("the answer assigns %q, the callback chose %q", replyJID, cbJID)
+				}
+				if exp.Reply == "random" {
+					j, jerr := jid.Parse(replyJID)
+					if jerr != nil || !j.Bare().Equal(remote) || j.Resourcepart() == "" {
+						diff("the answer assigns %q, want a fresh resource on %q", replyJID, remote)
+					}
+				}
+			case "stanzaerror":
+				if !strings.Contains(string(iq.Inner), "<"+exp.Cond) {
+					diff("the answer does not relay the callback's condition %s: %q", exp.Cond, o.reply)
+				}
+				if iq.Bind != nil && iq.Bind.JID != nil {
+					diff("the answer assigns an address although the callback refused: %q", o.reply)
+				}
+			}
+		}
+	}
+	ready := o.s != nil && o.s.State()&xmpp.Ready != 0
+	outcome := "error"
+	if o.err == nil && ready {
+		outcome = "ready"
+	} else if ready && exp.Outcome != "any" {
+		diff("an error was returned but the session is Ready")
+	}
+	obs["outcome"] = outcome
+	if exp.Outcome != "any" && outcome != exp.Outcome {
+		diff("outcome %s (%s), want %s", outcome, errText(o.err), exp.Outcome)
+	}
+	return diffs, obs, replyJID
+}
+
+func runRecvOnce(v RecvVec) (diffs []string, obs vt.Ev, replyJID string) {
+	id := str(v.In.ID)
+	o := &recvRun{remote: jid.MustParse("me@example.net")}
+	feat := feature(v.In.CB, func() jid.JID { return o.remote }, func(c cbCall) { o.calls = append(o.calls, c) })
 	c := vt.NewConn()
 	reads, mark := 0, 0
 	c.Starve = func() {
@@ -312,11 +420,7 @@ func runRecvOnce(v RecvVec) (diffs []string, obs vt.Ev, replyJID string) {
 			c.FeedString(clientHdr)
 		case 2:
 			mark = len(c.WireString())
-			inner := ""
-			if !noRes(v.In.Res) {
-				inner = "<resource>" + esc(str(v.In.Res)) + "</resource>"
-			}
-			c.FeedString("<iq type='set' id='" + esc(id) + "'><bind xmlns='" + nsBind + "'>" + inner + "</bind></iq>")
+			c.FeedString(bindRequest(id, v.In.Res))
 		default:
 			c.CloseIn()
 		}
@@ -325,72 +429,11 @@ func runRecvOnce(v RecvVec) (diffs []string, obs vt.Ev, replyJID string) {
 	if v.In.S2S {
 		state |= xmpp.S2S
 	}
-	s, err, p := session(false, jid.JID{}, jid.JID{}, c, state, feat)
-	reply := ""
+	o.s, o.err, o.panicked = session(false, jid.JID{}, jid.JID{}, c, state, feat)
 	if w := c.WireString(); mark > 0 && mark <= len(w) {
-		reply = w[mark:]
+		o.reply = w[mark:]
 	}
-	obs = vt.Ev{"reply": reply, "err": errText(err)}
-	if p != nil {
-		diff("the session panicked: %v", p)
-		return diffs, obs, ""
-	}
-	// the callback
-	if v.In.CB != "random" {
-		switch {
-		case cbCalled != 1:
-			diff("the callback was called %d times", cbCalled)
-		case cbRes != str(v.Exp.CBArg) || !cbRemote.Equal(remote):
-			diff("the callback was called with (%q, %q), want (%q, %q)", cbRemote, cbRes, remote, str(v.Exp.CBArg))
-		}
-	}
-	// the answer
-	if v.Exp.Reply != "none" {
-		iq, perr := parseIQ(reply)
-		switch {
-		case perr != nil:
-			diff("the answer is not a well-formed element: %v (%q)", perr, reply)
-		case iq.ID != str(v.Exp.ID):
-			diff("the answer has id %q, the request had %q", iq.ID, str(v.Exp.ID))
-		default:
-			switch v.Exp.Reply {
-			case "address", "random":
-				if iq.Type != "result" || iq.Bind == nil || iq.Bind.JID == nil {
-					diff("the answer assigns no address: %q", reply)
-					break
-				}
-				replyJID = *iq.Bind.JID
-				if v.Exp.Reply == "address" && replyJID != cbJID.String() {
-					diff("the answer assigns %q, the callback chose %q", replyJID, cbJID)
-				}
-				if v.Exp.Reply == "random" {
-					j, jerr := jid.Parse(replyJID)
-					if jerr != nil || !j.Bare().Equal(remote) || j.Resourcepart() == "" {
-						diff("the answer assigns %q, want a fresh resource on %q", replyJID, remote)
-					}
-				}
-			case "stanzaerror":
-				if !strings.Contains(string(iq.Inner), "<"+v.Exp.Cond) {
-					diff("the answer does not relay the callback's condition %s: %q", v.Exp.Cond, reply)
-				}
-				if iq.Bind != nil && iq.Bind.JID != nil {
-					diff("the answer assigns an address although the callback refused: %q", reply)
-				}
-			}
-		}
-	}
-	ready := s != nil && s.State()&xmpp.Ready != 0
-	outcome := "error"
-	if err == nil && ready {
-		outcome = "ready"
-	} else if ready && v.Exp.Outcome != "any" {
-		diff("an error was returned but the session is Ready")
-	}
-	obs["outcome"] = outcome
-	if v.Exp.Outcome != "any" && outcome != v.Exp.Outcome {
-		diff("outcome %s (%s), want %s", outcome, errText(err), v.Exp.Outcome)
-	}
-	return diffs, obs, replyJID
+	return judgeRecv(v.In.CB, v.Exp, o)
 }
 
 func runRecv(v RecvVec) ([]string, vt.Ev) {
